@@ -16,6 +16,7 @@ import (
 	"github.com/PowerDNS/lightningstream/syncer/receiver"
 	"github.com/PowerDNS/lightningstream/syncer/sweeper"
 	"github.com/PowerDNS/lightningstream/utils"
+	"github.com/PowerDNS/lightningstream/utils/verifhook"
 	"github.com/PowerDNS/lmdb-go/lmdb"
 	"github.com/sirupsen/logrus"
 )
@@ -89,11 +90,13 @@ func (s *Syncer) syncLoop(ctx context.Context, env *lmdb.Env, r *receiver.Receiv
 			break
 		}
 		s.l.WithError(err).Info("Waiting for initial receiver listing")
+		verifhook.Yield(s.instanceID(), "startup.list_failed", "")
 		time.Sleep(time.Second)
 	}
 
 	// Start tracker: Initial storage snapshots listed
 	s.startTracker.SetPassedInitialListing()
+	verifhook.Yield(s.instanceID(), "startup.listed", "")
 
 	hasSnapshots := r.HasSnapshots()
 	ownInstanceID := s.instanceID()
@@ -146,6 +149,7 @@ func (s *Syncer) syncLoop(ctx context.Context, env *lmdb.Env, r *receiver.Receiv
 	// We do not do this here when a snapshot already exists, because it could
 	// be a snapshot from this instance that we do not want to overwrite
 	// with an empty one in the LMDB was reset.
+	verifhook.Yield(s.instanceID(), "startup.before_first_send", "")
 	if hasDataAtStart && !hasSnapshots {
 		s.l.Info("Performing initial snapshot, because none exists yet")
 		actualTxnID, err := s.SendOnce(ctx, env)
@@ -190,6 +194,7 @@ func (s *Syncer) syncLoop(ctx context.Context, env *lmdb.Env, r *receiver.Receiv
 		// Additionally, in shadow mode, every load will implicitly trigger a
 		// snapshot when local changes are detected.
 		// TODO: LSE: Maybe also add MaxConsecutiveUpdateLoads, or base this on time?
+		verifhook.Yield(s.instanceID(), "loop.top", "")
 		nLoads := 0
 	loadReadySnapshotsLoop:
 		for {
@@ -282,11 +287,13 @@ func (s *Syncer) syncLoop(ctx context.Context, env *lmdb.Env, r *receiver.Receiv
 			).Info("Snapshot overdue, forcing one")
 		}
 
+		verifhook.Yield(s.instanceID(), "loop.before_info", "")
 		// Check for change in local LMDB
 		info, err := env.Info()
 		if err != nil {
 			return err
 		}
+		verifhook.Yield(s.instanceID(), "loop.after_info", "")
 		s.l.WithFields(logrus.Fields{
 			"info.LastTxnID":  info.LastTxnID,
 			"lastSyncedTxnID": lastSyncedTxnID,
@@ -338,6 +345,7 @@ func (s *Syncer) syncLoop(ctx context.Context, env *lmdb.Env, r *receiver.Receiv
 			return nil
 		}
 
+		verifhook.Yield(s.instanceID(), "loop.end", "")
 		// Sleep before next check for snapshots and local changes
 		if err := utils.SleepContext(ctx, s.c.LMDBPollInterval); err != nil {
 			return err
@@ -359,6 +367,7 @@ func (s *Syncer) LoadOnce(ctx context.Context, env *lmdb.Env, instance string, u
 
 	schemaTracksChanges := s.lc.SchemaTracksChanges
 
+	verifhook.Yield(s.instanceID(), "load.before_txn", update.NameInfo.FullName)
 	err = env.Update(func(txn *lmdb.Txn) error {
 		ts := time.Now()
 		tTxnAcquire = ts
@@ -520,6 +529,7 @@ func (s *Syncer) LoadOnce(ctx context.Context, env *lmdb.Env, instance string, u
 		// We always return LMDB reading errors, as these are really unexpected
 		return 0, false, err
 	}
+	verifhook.Yield(s.instanceID(), "load.after_txn", update.NameInfo.FullName)
 	tLoaded := time.Now()
 
 	// If no actual changes were made, LMDB will not record the transaction
@@ -559,6 +569,7 @@ func (s *Syncer) LoadOnce(ctx context.Context, env *lmdb.Env, instance string, u
 	}).Debug("Loaded remote update (with timings)")
 
 	s.lastByInstance[instance] = update.NameInfo.Timestamp
+	verifhook.Yield(s.instanceID(), "load.done", update.NameInfo.FullName)
 
 	return txnID, localChanged, nil
 }
